@@ -1,7 +1,7 @@
 """Triage tool (not a check): the exhaustive small-routine family (rules/ssbs_roundtrip._op_level) decompiled by the real code and by
 /verif's interpreted pipeline; the two texts must be identical.
 
-Run:  PYTHONPATH=/verif:/repo /venv/bin/python witness/oplevel_diff.py <part> <parts> [max_ops]
+Run:  PYTHONPATH=/verif:/repo /venv/bin/python witness/oplevel_diff.py <part> <parts> [max_ops] [switch]
 """
 import logging
 import signal
@@ -17,7 +17,7 @@ from esv.engine.loader import Repo  # noqa: E402
 from esv.engine.consts import Folder  # noqa: E402
 from esv.engine.pipeline import Pipeline  # noqa: E402
 from esv.engine.absint import PyExc, Unsupported  # noqa: E402
-from esv.rules.ssbs_roundtrip import _op_level  # noqa: E402
+from esv.rules.ssbs_roundtrip import _op_level, _switch_level  # noqa: E402
 
 from explorerscript.ssb_converting.ssb_data_types import DungeonModeConstants, SsbOperation, SsbOpCode, SsbRoutineInfo, SsbRoutineType, SsbOpParamConstant  # noqa: E402
 from explorerscript.ssb_converting.ssb_decompiler import ExplorerScriptSsbDecompiler  # noqa: E402
@@ -39,7 +39,8 @@ thorough = (int(sys.argv[3]) if len(sys.argv) > 3 else 4) >= 4
 repo = Repo("/repo")
 P = Pipeline(repo, Folder(repo), max_steps=3_000_000)
 n = bad = skipped = 0
-for idx, (name, infos, ops, names) in enumerate(_op_level(P, thorough)):
+family = _switch_level if (len(sys.argv) > 4 and sys.argv[4] == "switch") else _op_level
+for idx, (name, infos, ops, names) in enumerate(family(P, thorough)):
     if idx % parts != part:
         continue
     real_ops = []
